@@ -214,14 +214,22 @@ class C13(Check):
                     ops[-1]['decorator'] = rng.choice(['neg', 'half', 'id'])    # user decorator around the generated RHS
                 if rng.random() < 0.6:
                     ops.append({'wf': wid, 'op': 'probe', 'handle': h})
-            if stratum != 'S-fortran' and rng.random() < 0.25 and net.inst:
+            if stratum != 'S-fortran' and rng.random() < (0.45 if stratum == 'S-noclear' else 0.25) and net.inst:
                 # an extrinsic input (generated input nodes/operators get process-wide unique labels)
                 (inode, iop), iinst = rng.choice(list(net.inst.items()))
                 n_in = 12 if kind == 'run' else 8
                 if kind == 'run':
                     n_in = int(round(kw['T'] / kw['dt']))
-                ops[-1 if ops[-1]['op'] != 'probe' else -2].setdefault('input', {
+                tgt_op = ops[-1 if ops[-1]['op'] != 'probe' else -2]
+                tgt_op.setdefault('input', {
                     'target': f"{inode}/{iop}/{models.LIB[iinst['lib']]['in']}", 'n': n_in, 'amp': rng.choice([0.5, 1.0, -0.25])})
+                if kind == 'run' and rng.random() < 0.5 and 'backend' not in kw:
+                    # adaptive solver: the input comes with an interpolation grid of its own (length and end time of THIS run);
+                    # different workflows often attach the SAME array (12 samples, amplitude 1) over different time spans
+                    tgt_op['kw']['solver'] = 'scipy'
+                    tgt_op['input']['n'] = rng.choice([n_in, 12, 12, 12])
+                    if tgt_op['input']['n'] == 12:
+                        tgt_op['input']['amp'] = 1.0
             if kind == 'compile' and rng.random() < (0.9 if stratum == 'S-jax' else 0.3):
                 late_probes.append({'wf': wid, 'op': 'probe', 'handle': h})
             consumed = kw['in_place']
